@@ -157,6 +157,7 @@ def replay_file(mod, pid, path):
 
 def run_property(mod, pid, tier, seed, t0):
     budget = 10 if tier == 'quick' else 60
+    core.CROSSCHECK = (tier == 'thorough')
     extract.clear_cache()
     harnesses = mod.harnesses(tier)
     res = generate(harnesses)
